@@ -23,7 +23,7 @@ benign = []
 for d in sorted(glob.glob(f'{V}/benign/*/meta.json')):
     benign.append((os.path.basename(os.path.dirname(d)), json.load(open(d))))
 benign_rows = "\n".join(f"| {bid} | {', '.join(m['touches'])[:60]} | {cell(m['summary'], 150)} | {', '.join(k for k in sorted(m['checks_run_quick']))} | {cell(m['verdict'], 80)} |" for bid, m in benign)
-n_benign_ok = sum(1 for b, m in benign if m['verdict'].startswith('benign'))
+n_benign_ok = sum(1 for b, m in benign if m['verdict'].startswith('benign: no check raised an alarm') and 'adjudication' not in m)
 nfix = len(fixed)
 sec = f"""## 10. Implementation status, results and adjudications (written after the code)
 
@@ -116,6 +116,10 @@ the failing case (see `known_findings.json`); a violation outside those predicat
   that a plain slice starts at its centre.  The property fixes neither the starting vertex nor the winding of
   ellipses, rings, slices, racetracks or fillet outputs; the judgement now tries every cut of the analytic outline at
   vertex 0 and both directions and accepts if one consistent walk exists.
+* **C20, home slots** (benign-change experiment): the probe-chain invariant assumed gdstk's generic `hash()` for every
+  table type; it now asks each table type for the home slot of a key.
+* **C13, samples inside the source at scaling 1**: "a sample inside A must be covered" ignored the rounding guard; the
+  distance is now signed and goes through the same guard test (identical verdicts at the ordinary scalings).
 * **C06, curved paths under magnification**: a path with circular bends that is polygonised after being magnified
   has more arc points than its magnified leaf outline; for that leaf kind outlines are compared as closed polylines
   within 2.5 path tolerances times the total magnification instead of vertex by vertex.
@@ -199,6 +203,10 @@ patch touches.  {len(benign)} changes (`/verif/benign/<id>/`: `patch.diff`, `not
   violations - a FALSE ALARM of the check (it assumed where the vertex list of a slice starts).  Corrected:
   the judgement of every closed primitive is now invariant under cyclic rotation and winding (10.4);
   an invariance self-check re-judges every 4th primitive rotated and reversed.
+* `benign/C16-3` (a dedicated integer hash for `TagMap`): C20 reported 322 `table.tagmap/probe-chain` violations - a
+  FALSE ALARM: the open-addressing invariant was evaluated with home slots computed from gdstk's generic `hash()`.
+  Corrected: home slots are asked from each table type itself (`get_slot` on an empty table of the same capacity) and
+  the colliding key alphabets are searched per table type, so the check no longer depends on which hash a table uses.
 * `benign/C02-3` and `benign/C03-2` (hash-table load factor 0.5 -> 0.7): C16 and C20 report a hang.  This is a
   TRUE alarm: `Library::top_level` sizes its maps by hand (`resize(count * 2)`), so with a higher load factor a
   map of capacity 2 fills completely and `Map::get` of an absent name never terminates.  The change is not benign
